@@ -3,6 +3,9 @@
 # by checksum WITHOUT preserving mtimes, so every file whose content changes gets a fresh mtime and
 # cargo's mtime-based fingerprints can never reuse an artifact built from a previously patched source.
 V="$(cd "$(dirname "${BASH_SOURCE[0]}")/.." && pwd)"
+# harness sources to test with; VERIF_HARNESS_SRC may point at an exported snapshot of a commit so that the
+# working copy can be edited while a long evaluation runs
+HSRC="${VERIF_HARNESS_SRC:-$V/harness}"
 
 fam_of() { grep -E "^\s+[C0-9|]+\) echo fam_" "$V/check" | while read -r line; do ids="${line%%)*}"; pkg="${line##*echo }"; pkg="${pkg%% *}"; for i in ${ids//|/ }; do [ "$i" = "$1" ] && echo "$pkg"; done; done; }
 
@@ -10,8 +13,8 @@ scratch_prepare() { # $1 = pkg ; sets S
   S="/tmp/vscratch-$1"
   mkdir -p "$S/repo" "$S/harness" "$S/root"
   rsync -rlpgoD --checksum --delete --exclude target --exclude .git /repo/ "$S/repo/"
-  rsync -rlpgoD --checksum --delete --exclude 'target*' --exclude /Cargo.toml "$V/harness/" "$S/harness/"
-  sed "s#/repo/#$S/repo/#" "$V/harness/Cargo.toml" > "$S/harness/Cargo.toml.new"
+  rsync -rlpgoD --checksum --delete --exclude 'target*' --exclude /Cargo.toml "$HSRC/" "$S/harness/"
+  sed "s#/repo/#$S/repo/#" "$HSRC/Cargo.toml" > "$S/harness/Cargo.toml.new"
   if cmp -s "$S/harness/Cargo.toml.new" "$S/harness/Cargo.toml"; then rm "$S/harness/Cargo.toml.new"; else mv "$S/harness/Cargo.toml.new" "$S/harness/Cargo.toml"; fi
   rm -rf "$S/root"; mkdir -p "$S/root"; cp "$V/known_findings.json" "$S/root/" 2>/dev/null
 }
